@@ -507,7 +507,14 @@ func writeEvidence(prop, tier string, seed int, frs []*FuncResult, all []*OblRes
 			discharged++
 			bySolver[r.solver]++
 		case "known-finding":
+			// the obligation that is claimed is the one with the recorded region excluded; that query was answered unsat
+			// (a finding without a region names one whole obligation, which is then not claimed at all)
 			known = append(known, r.finding.ID+": "+r.ob.Name)
+			if r.finding.Region != "" {
+				discharged++
+			} else {
+				obligations--
+			}
 		case "violation", "violation-unconfirmed":
 			violations++
 		case "undecided":
@@ -545,6 +552,13 @@ func writeEvidence(prop, tier string, seed int, frs []*FuncResult, all []*OblRes
 		}
 		explanation = pd.Explanation
 		assumptions = append(assumptions, pd.Assumptions...)
+	}
+	if level == "proof" && (discharged != obligations || obligations == 0) {
+		level = "other"
+		explanation = "not every obligation was discharged on this run (see undecided / violations); the run does not count as a proof. " + explanation
+	}
+	if explanation == "" {
+		explanation = "every verification condition generated from the functions under contract was discharged by an SMT solver (see obligations/discharged, samples)"
 	}
 	cov := map[string]any{
 		"obligations":           obligations,
